@@ -40,6 +40,8 @@ func renderRun(key string, data *DataEnv, fail, short int) VRun {
 	})
 	if !obs.Hang {
 		obs.Out = append([]byte(nil), fw.buf.Bytes()...)
+	} else {
+		noteHang(key)
 	}
 	return VRun{Fail: fail, Short: short, Obs: obs, Writes: fw.n}
 }
@@ -106,6 +108,7 @@ func parseDump(src []byte, keepFmt bool) (string, []dyntpl.VerifNode, Obs) {
 		return nil, nil
 	})
 	pmObserve(src, keepFmt, o, dump)
+	keySrc.Store(key, string(src))
 	return key, dump, o
 }
 
